@@ -26,6 +26,9 @@ SITES = {
     # id is the hostile text
     'content_translated': ('<p tal:content="key" i18n:translate="">x</p>', None, True),
     'replace_translated': ('<i>l</i><p tal:replace="key" i18n:translate="">x</p><i>r</i>', None, True),
+    # attributes written without quotes in the source (a computed value is written in double quotes)
+    'attr_unquoted_interp': ('<p t=${v} u=k>x</p>', '"', True),
+    'tal_attr_unquoted_static': ('<p t=s u=k tal:attributes="t v">x</p>', '"', True),
     # a string: expression inside an interpolation
     'string_in_interp_text': ('<p>${string:a${v}b}</p>', None, True),
     'string_in_interp_attr': ('<p t="${string:a${v}b}">x</p>', '"', True),
